@@ -708,6 +708,20 @@ func (a *analysis) oracleC03() verdict {
 			if sc.End == "natural" && a.mustBeGone(bi, pw) && !clipped {
 				return a.fv("last-removed-present", "bar %d was to be removed (%s) but the last frame still shows it", bi, flags(pw))
 			}
+			// any ending: a bar set to be removed that the last frame shows in at
+			// least its second terminal frame is dropped by that very frame, so a
+			// further frame without it was owed
+			if !clipped && a.removalStands(bi, g) {
+				tf := 0
+				for fi := a.first[bi]; fi >= 0 && fi < len(a.frames); fi++ {
+					if x := a.frames[fi].find(bi); x != nil && (x.C || x.A) {
+						tf++
+					}
+				}
+				if tf >= 2 && !(sc.Pop && !spec.NoPop) && !a.hasSuccessor(bi) {
+					return a.fv("last-removed-present:"+sc.End, "bar %d is set to be removed and the last frame is its terminal frame no. %d: the frame that drops it cannot be the last one (bars set to be removed are absent from the final frame)", bi, tf)
+				}
+			}
 			if g.Cur != pw.Cur || g.C != pw.Compl || g.A != pw.Abrt {
 				return a.fv("last-state", "last frame shows bar %d as %d/%d C=%v A=%v, after Wait Current=%d Completed=%v Aborted=%v", bi, g.Cur, g.Tot, g.C, g.A, pw.Cur, pw.Compl, pw.Abrt)
 			}
@@ -795,6 +809,35 @@ func (a *analysis) mustBeGone(bi int, pw getterSnap) bool {
 	}
 	if pw.Abrt && a.dropAborted(bi) && a.abortWasEffective(bi) {
 		return true
+	}
+	return false
+}
+
+// removalStands: the bar carries the remove flag for the state the frame shows:
+// completed with remove-on-complete, or aborted while remove-on-complete was
+// never overridden by an Abort(false) and no Abort(true/false) ambiguity exists.
+func (a *analysis) removalStands(bi int, g *Group) bool {
+	spec := a.sc.Bars[bi]
+	nAbort, nDrop := 0, 0
+	for _, o := range a.hist() {
+		if o.Op.K == "abort" && o.Op.B == bi && !o.Skipped {
+			nAbort++
+			if o.Op.F {
+				nDrop++
+			}
+		}
+	}
+	if g.C {
+		return spec.Rm
+	}
+	if g.A {
+		if nAbort == 0 {
+			return spec.Rm // aborted by cancellation: the option stands
+		}
+		if a.cancelPossible() {
+			return false // an Abort racing with cancellation may or may not have been the one that ended the bar
+		}
+		return nDrop == nAbort // every Abort asked for removal
 	}
 	return false
 }
